@@ -116,6 +116,11 @@ def write_file(path, fmt, V, var="plain", vals=None, defect=None):
             rows.insert(r, ["raw:"])
         elif kind == "no_rows":
             rows = []
+        elif kind == "break_late":
+            # the line break between rows r and r+1 slipped by one token: k+1 / k-1 columns, rectangular in total
+            rows[r], rows[r + 1] = rows[r] + rows[r + 1][:1], rows[r + 1][1:]
+        elif kind == "break_early":
+            rows[r], rows[r + 1] = rows[r][:-1], rows[r][-1:] + rows[r + 1]
     prefix = []
     if var == "comments":
         prefix = ["# a comment line", "# timestamp tx ty tz qx qy qz qw"]
@@ -255,6 +260,9 @@ def run_malformed(case, col):
         defects += [("too_few", r, 0), ("too_many", r, 0), ("trailing", r, 0), ("blank_row", r, 0)]
         for c in (0, 3, NCOL[fmt] - 1 if fmt != "euroc" else 7):
             defects.append(("non_numeric", r, c))
+    for r in range(n - 1):
+        # compensating defects in two rows (added after seed C07c): the total number of fields is that of a well-formed file
+        defects += [("break_late", r, 0), ("break_early", r, 0)]
     if fmt == "euroc":
         # EuRoC rows may have more than 8 columns by convention: 'too_many' on row 0 widens every row's minimum only there
         defects = [d for d in defects if not (d[0] == "too_many" and d[1] == 0)]
